@@ -110,6 +110,12 @@ func cmdDump(args []string) int {
 	for _, e := range S.Errors {
 		fmt.Println("SPEC ERROR:", e)
 	}
+	if os.Getenv("GOVC_SSA") != "" {
+		if f := P.Funcs[*fn]; f != nil {
+			f.WriteTo(os.Stdout)
+		}
+		return 0
+	}
 	ct := S.Contracts[*fn]
 	if ct == nil {
 		fmt.Println("no contract for", *fn)
